@@ -17,7 +17,7 @@ for v in ctx.violations:
 for k, vs in by.items():
     kn = check.match_known(known, prop, k)
     print("%s %4d  %s" % ("KNOWN" if kn else "NEW  ", len(vs), k[:200]))
-    if not kn:
+    if not kn or os.environ.get("SHOWKNOWN"):
         t = vs[0].replay_text
         for field in ("what", "case", "stderr_tail"):
             import re
